@@ -31,12 +31,27 @@ package stun
 //@   transparent
 
 //@ func (*MessageType).ReadValue
+//@   mode bv
 //@   safety C01 C19
 //@   props C01 C02 C19
 //@   requires t != nil
 //@   assigns *t
-//@   ensures t.Class == (v/16)%2 + 2*((v/256)%2)
-//@   ensures t.Method == v%16 + 16*((v/32)%8) + 128*((v/512)%32)
+//@   ensures t.Class == mtype_class(v)
+//@   ensures t.Method == mtype_method(v)
+
+//@ func MessageType.Value
+//@   mode bv
+//@   safety C19 C03
+//@   props C19 C03
+//@   pure
+//@   requires t.Method < 4096 && t.Class < 4
+//@   ensures result == mtype(t.Method, t.Class)
+
+//@ func NewType
+//@   safety C19
+//@   props C19
+//@   pure
+//@   ensures result.Method == method && result.Class == class
 
 //@ define DecodedViews(m) = len(m.Attributes) >= 0 && len(m.Raw) >= 20 + be16(m.Raw, 2)
 //@   | && start(m.Raw, len(m.Attributes)) == 20 + be16(m.Raw, 2)
@@ -50,8 +65,8 @@ package stun
 
 //@ define DecodedContent(m) = m.Length == be16(m.Raw, 2)
 //@   | && forall(j, 0, 12, m.TransactionID[j] == m.Raw[8+j])
-//@   | && m.Type.Class == (be16(m.Raw,0)/16)%2 + 2*((be16(m.Raw,0)/256)%2)
-//@   | && m.Type.Method == be16(m.Raw,0)%16 + 16*((be16(m.Raw,0)/32)%8) + 128*((be16(m.Raw,0)/512)%32)
+//@   | && m.Type.Class == mtype_class(be16(m.Raw,0))
+//@   | && m.Type.Method == mtype_method(be16(m.Raw,0))
 //@   | && forall(k, 0, len(m.Attributes),
 //@   |      m.Attributes[k].Type == compat(be16(m.Raw, start(m.Raw, k)))
 //@   |   && m.Attributes[k].Length == be16(m.Raw, start(m.Raw, k) + 2))
